@@ -7,7 +7,7 @@ import itertools
 import z3
 
 from .expr import B, BoundBuiltin, SetVal
-from .values import (SliceView, AbsObj, AList, BoundMethod, Builtin, ClassRef, EnumObj, ExcClass, ExcVal, FuncRef, IterObj, Lambda,
+from .values import (ASet, ListS, fresh_name, SliceView, AbsObj, AList, BoundMethod, Builtin, ClassRef, EnumObj, ExcClass, ExcVal, FuncRef, IterObj, Lambda,
                      ModRef, NOTIMPL, Obj, Opt, OutsideSubset, RaiseEx, RangeObj, ReturnEx, SymObj, ZipObj, fresh_name)
 
 
@@ -18,6 +18,10 @@ class CallMixin:
             q = self.quantified_any_all(e.func.id, e.args[0], fr)
             if q is not None:
                 return q
+        if self._is_reduce_of_map(e):
+            r = self.abstract_reduce(e, fr)
+            if r is not NotImplemented:
+                return r
         f = self.ev(e.func, fr)
         args = []
         for a in e.args:
@@ -27,6 +31,9 @@ class CallMixin:
                 if l is None:
                     if isinstance(v, AList):
                         args.append(StarArgs(v))
+                        continue
+                    if isinstance(v, ASet):
+                        args.append(StarArgs(v.lst))        # some order of the elements
                         continue
                     raise OutsideSubset("star-args of abstract value")
                 args.extend(l)
@@ -42,6 +49,55 @@ class CallMixin:
             else:
                 kwargs[k.arg] = self.ev(k.value, fr)
         return self.call(f, args, kwargs, site=f"{fr.finfo.qualname}:{e.lineno}")
+
+    # ---- functools.reduce(F, map(G, XS), INIT) over an abstract sequence: run as the loop it abbreviates, under a registered invariant
+    @staticmethod
+    def _is_reduce_of_map(e):
+        f = e.func
+        is_reduce = (isinstance(f, ast.Attribute) and f.attr == "reduce" and isinstance(f.value, ast.Name) and f.value.id == "functools") or \
+                    (isinstance(f, ast.Name) and f.id == "reduce")
+        return is_reduce and len(e.args) in (2, 3) and not e.keywords and isinstance(e.args[1], ast.Call) and isinstance(e.args[1].func, ast.Name) \
+            and e.args[1].func.id == "map" and len(e.args[1].args) == 2
+
+    def abstract_reduce(self, e, fr):
+        xs = self.ev(e.args[1].args[1], fr)
+        if self.to_pylist(xs) is not None:
+            return NotImplemented                      # concrete sequence: the ordinary evaluation unrolls it
+        calls = [n for n in ast.walk(fr.finfo.node) if isinstance(n, ast.Call) and self._is_reduce_of_map(n)]
+        calls.sort(key=lambda n: (n.lineno, n.col_offset))
+        ordn = f"reduce{calls.index(e)}"
+        spec = self.loop_specs.get((fr.finfo.qualname, ordn))
+        if spec is None:
+            raise OutsideSubset(f"{ordn} of {fr.finfo.qualname}: reduce over an abstract sequence without an invariant")
+        loop = ast.parse("for __rx in __rxs:\n    __racc = __RF(__racc, __RG(__rx))" if len(e.args) == 3 else
+                         "for __rx in __rxs[1:]:\n    __racc = __RF(__racc, __RG(__rx))").body[0]
+
+        class Sub(ast.NodeTransformer):
+            def visit_Name(self_, n):
+                if n.id == "__RF":
+                    return e.args[0]
+                if n.id == "__RG":
+                    return e.args[1].args[0]
+                return n
+        loop = ast.fix_missing_locations(ast.copy_location(Sub().visit(loop), e))
+        for n in ast.walk(loop):
+            if not hasattr(n, "lineno"):
+                n.lineno, n.col_offset = e.lineno, e.col_offset
+        loop._spec, loop._ordn = spec, ordn
+        fr.env["__rxs"] = xs
+        if len(e.args) == 3:
+            fr.env["__racc"] = self.ev(e.args[2], fr)
+        else:
+            # reduce(F, seq) without an initial value: TypeError on an empty sequence, else starts from the first element
+            if self.branch(self.length(xs) == 0):
+                raise RaiseEx("TypeError", "reduce() of empty iterable with no initial value")
+            first = ast.fix_missing_locations(ast.copy_location(Sub().visit(ast.parse("__RG(__rxs[0])", mode="eval").body), e))
+            for n in ast.walk(first):
+                if not hasattr(n, "lineno"):
+                    n.lineno, n.col_offset = e.lineno, e.col_offset
+            fr.env["__racc"] = self.ev(first, fr)
+        self.for_loop(loop, fr)
+        return fr.env["__racc"]
 
     def quantified_any_all(self, name, g, fr):
         """any()/all() of a generator over an abstract list = bounded quantifier (element expression must be fork-free)"""
@@ -256,6 +312,8 @@ class CallMixin:
             if not args:
                 return set()
             l = self.to_pylist(args[0])
+            if l is None and isinstance(args[0], AList) and hasattr(args[0].shape, "eq_terms"):
+                return ASet(args[0])
             if l is None:
                 raise OutsideSubset("set() of abstract")
             if all(isinstance(x, (str, int)) for x in l):
@@ -526,7 +584,28 @@ class CallMixin:
         return best
 
     # ------------------------------------------------------------ methods of builtin values
+    # ---- abstract sets (A-STDLIB set semantics over the element equality of the list shape)
+    def aset_mem(self, lst, x):
+        i = z3.Int(fresh_name("sm"))
+        return z3.Exists([i], z3.And(0 <= i, i < lst.n, lst.shape.eq_terms(self, z3.Select(lst.arr, i), x)))
+
+    def aset_op(self, name, a, b):
+        A, Bl = a.lst, b.lst
+        i = z3.Int(fresh_name("si"))
+        if name == "issubset":
+            return z3.ForAll([i], z3.Implies(z3.And(0 <= i, i < A.n), self.aset_mem(Bl, z3.Select(A.arr, i))))
+        R = ListS(A.shape).fresh(name)
+        k = z3.Int(fresh_name("sk"))
+        rk, ai = z3.Select(R.arr, k), z3.Select(A.arr, i)
+        keep = (lambda x: self.aset_mem(Bl, x)) if name == "intersection" else (lambda x: z3.Not(self.aset_mem(Bl, x)))
+        self.assume(R.n >= 0)
+        self.assume(z3.ForAll([k], z3.Implies(z3.And(0 <= k, k < R.n), z3.And(self.aset_mem(A, rk), keep(rk)))))
+        self.assume(z3.ForAll([i], z3.Implies(z3.And(0 <= i, i < A.n, keep(ai)), self.aset_mem(R, ai))))
+        return ASet(R)
+
     def call_method_builtin(self, recv, name, args, kw):
+        if isinstance(recv, ASet) and name in ("issubset", "intersection", "difference") and len(args) == 1 and isinstance(args[0], ASet):
+            return self.aset_op(name, recv, args[0])
         th = self.theory
         if th is not None and hasattr(th, "method_builtin"):
             r = th.method_builtin(self, recv, name, args, kw)
